@@ -136,6 +136,7 @@ class Instance(object):
             self.texts.update(mibs.BASE)
         elif kind == 'sameast':
             self.cache = {}
+        self.kept = []
 
     def pre(self):
         if self.kind in ('parser', 'parserV2'):
@@ -150,18 +151,26 @@ class Instance(object):
         k = self.kind
         if k in ('parser', 'parserV2'):
             try:
-                return ['TREE', mibs.digest(self.obj.parse(text))]
+                r = ['TREE', mibs.digest(self.obj.parse(text))]
             except Exception as exc:
-                return err(exc)
+                r = err(exc)
+            self.kept.append(lambda r=r: r)
+            return r
         if k == 'compiler':
             self.texts[name] = text
             self.pipe.written.clear()
             try:
                 res = self.pipe.compile(name, genTexts=True)
             except Exception as exc:
-                return err(exc)
-            return [sorted((m, mibs.status_summary(s)) for m, s in res.items() if m not in mibs.BASE),
-                    sorted((m, mibs.digest(strip_volatile(t))) for m, t in self.pipe.written.items())]
+                r = err(exc)
+                self.kept.append(lambda r=r: r)
+                return r
+            written = dict(self.pipe.written)
+            # the returned status objects are kept: what they say must not change when the compiler is used again
+            self.kept.append(lambda res=res, written=written: [
+                sorted((m, mibs.status_summary(s)) for m, s in res.items() if m not in mibs.BASE),
+                sorted((m, mibs.digest(strip_volatile(t))) for m, t in written.items())])
+            return self.kept[-1]()
         # generator kinds: parse with a fresh parser (the parser is not the instance under test)
         try:
             if k == 'sameast' and key in self.cache:
@@ -171,8 +180,11 @@ class Instance(object):
                 if k == 'sameast':
                     self.cache[key] = asts
         except Exception as exc:
-            return ['PARSE-' + type(exc).__name__]
+            r = ['PARSE-' + type(exc).__name__]
+            self.kept.append(lambda r=r: r)
+            return r
         out = []
+        raws = []
         st = base_symtabs()
         for ast in asts:
             try:
@@ -184,11 +196,21 @@ class Instance(object):
                     continue
                 cg = self.obj if k in ('json', 'pysnmp') else JsonCodeGen()
                 mi, text_ = cg.genCode(ast, st, genTexts=True)
-                out.append(['GEN', mi.name, str(mi.revision), mi.identity, sorted(mi.oids), mi.enterprise, list(mi.compliance),
-                            mibs.digest(strip_volatile(text_))])
+                raws.append((mi, text_))
+                out.append(None)
             except Exception as exc:
+                raws.append(None)
                 out.append(err(exc))
-        return out
+        if k == 'symtable':
+            self.kept.append(lambda out=out: out)
+            return out
+
+        def proj(out=out, raws=raws):
+            # the MibInfo objects are kept: a summary already handed out must not change when the generator runs again
+            return [o if r is None else ['GEN', r[0].name, str(r[0].revision), r[0].identity, sorted(r[0].oids), r[0].enterprise,
+                                         list(r[0].compliance), mibs.digest(strip_volatile(r[1]))] for o, r in zip(out, raws)]
+        self.kept.append(proj)
+        return proj()
 
 
 _fresh = {}
@@ -210,6 +232,9 @@ def run_history(kind, hist):
         out = inst.feed(key)
         evs.append({'pos': pos + 1, 'input': key, 'out': json.dumps(out, sort_keys=True, default=str), 'fresh': json.dumps(fout, sort_keys=True, default=str),
                     'pre': json.dumps(pre), 'freshpre': json.dumps(fpre)})
+    # after the whole history: what the earlier results say NOW
+    for e, again in zip(evs, inst.kept):
+        e['later'] = json.dumps(again(), sort_keys=True, default=str)
     return evs
 
 
@@ -304,7 +329,11 @@ def run(out, prop, tier, seed, **kw):
         h = [e['input'] for e in t['events']]
         if out.traces % 199 == 1:
             out.sample({'instance': t['kind'], 'history': h, 'verdict': v})
-        if v['failed']:
+        if 'Stable' in v['failed']:
+            bad = [e for e in t['events'] if e.get('later') != e['out']][0]
+            out.violation('Stable;%s' % t['kind'], '%s instance, history %s: the result handed out for %r (position %d) says something else after the later calls: %s  now %s' % (
+                t['kind'], h, bad['input'], bad['pos'], bad['out'][:160], bad['later'][:160]), {'kind': 'history', 'instance': t['kind'], 'history': h})
+        if [f for f in v['failed'] if f != 'Stable']:
             e = t['events'][v['at'] - 1]
             prev = h[v['at'] - 2] if v['at'] > 1 else '-'
             what = '%s instance, history %s: result for %r (position %d, after %r) differs from a fresh instance: %s  vs fresh %s' % (
